@@ -24,6 +24,7 @@ STREAM_KINDS = {
     "xdma-rescale-down": ("snax_xdma", "i32", "i8", RESCALE.format(i="i32", o="i8")),
     "alu-add": ("snax_alu", "i32", "i32", "kernel.add %x, %x : i32, i32 -> i32"),
     "xdma-plain": ("snax_xdma", "i32", "i32", None),  # all extensions bypassed: a plain transfer without a kernel
+    "xdma-mul": ("snax_xdma", "i32", "i32", "kernel.mul %x, %x : i32, i32 -> i32"),  # a kernel no streamer extension provides: compute work
 }
 
 
